@@ -57,7 +57,7 @@ def run(ctx):
 
     # (programs, MaxOps) of the property runs and of the runs whose histories are replayed
     props = [(3, 5), (2, 6), (1, 6)] if th else [(3, 3), (2, 4)]
-    emits = [(3, 4), (2, 5)] if th else [(2, 3)]
+    emits = [(3, 4), (2, 4)] if th else [(2, 3)]
     jobs = [job("bin", lambda: vlib.build(ctx, "c06"))]
     for k, d in props:
         jobs.append(job("prop%d" % k, lambda k=k, d=d: rtlib.model(
@@ -76,7 +76,7 @@ def run(ctx):
     if opened:
         jobs.append(job("emitdev_omit", lambda: rtlib.model(ctx, FAM, od_, devs=opened, names=P[:ok_], emit=True, omit_source=True,
                                                             label="C06-emit-dev-omitsource", workers=W4, timeout=3000)))
-    nsim, depth = (3000, 8) if th else (150, 7)
+    nsim, depth = (800, 8) if th else (150, 7)
     jobs.insert(1, job("sim", lambda: rtlib.model(ctx, FAM, depth, invs=INVS, emit=True, simulate=nsim, depth=depth * 12 + 5,
                                                   seed=ctx.seed * 19 + 5, label="C06-sim", timeout=1500)))
     rtlib.parallel(jobs)
